@@ -50,10 +50,17 @@ Next == StepEvent
 Spec == Init /\ [][Next]_vars
 
 \* ---- what is checked in every state
-Why == LET ev == Run.events[k] IN
-       IF ev.status = "panic" THEN "C07" ELSE IF ev.status = "steps" THEN "TRACE" ELSE "TRACE"
+\* why a step is not explained: a panic (C07); the step left ANOTHER NUMBER of operands, input values or frames than the
+\* instruction's arity dictates (C06: "every instruction has a fixed pop / push arity"); anything else (a value, a jump, a host
+\* call, a runtime Err) is drift between VM.tla and the code, measured by the driver and never an alarm of C06.
+DepthsDiffer(S1, ev) == /\ ev.status \in {"run", "end"} /\ S1.status = ev.status
+                        /\ \/ (Len(ev.regs) # Len(S1.regs) + (IF S1.loose THEN 1 ELSE 0) /\ ~(Run.store = "simple" /\ ev.status = "end"))
+                           \/ Len(ev.vals) # Len(S1.vals)
+                           \/ Len(ev.frames) # Len(S1.frames)
+Why == LET ev == Run.events[k]  S1 == Step(Prog, S, HostOf(Obs[c])) IN
+       IF ev.status = "panic" THEN "C07" ELSE IF DepthsDiffer(S1, ev) THEN "C06" ELSE "TRACE"
 Accepted == st # "rejected" \/
-            PrintT(<<"FAIL", ToJson([c |-> c, store |-> Run.store, src |-> Obs[c].src, prop |-> Why, at |-> k,
+            PrintT(<<"FAIL", ToJson([c |-> c, store |-> Run.store, src |-> Obs[c].src, prop |-> Why, at |-> k, why |-> "an instruction left another number of operands, input values or frames than its arity dictates",
                                      event |-> Run.events[k], model |-> S,
                                      ins |-> IF S.pc >= 0 /\ S.pc < Len(Run.ins) THEN Run.ins[S.pc + 1].op ELSE "none",
                                      kf |-> KF_Trace(Why, Obs[c], Run, k)])>>)
